@@ -64,6 +64,10 @@ class interp1d:
 def brentq(f, a, b, *args, **kw):
     """Contract: ValueError unless f(a) and f(b) have opposite signs (or one is a
     root); otherwise some r between a and b with f(r) == 0."""
+    if 'args' in kw:
+        args = tuple(args) + tuple(kw.pop('args'))
+    for opt in ('xtol', 'rtol', 'maxiter', 'disp'):
+        kw.pop(opt, None)          # tolerances do not enter the contract (the root is exact)
     if kw:
         raise ShimGap('brentq options %r' % (sorted(kw),))
     fa = f(a, *args)
